@@ -81,7 +81,7 @@ def make_script(stmts, k, mode, control=False):
 def main():
     tier = common.tier()
     rnd = common.rng(PROP, "scripts")
-    nscripts = 2 if tier == "quick" else 6
+    nscripts = 2 if tier == "quick" else 10
     scripts = []
     for s in range(nscripts):
         n = rnd.randint(4, 6) if tier == "quick" else rnd.randint(4, 10)
